@@ -248,7 +248,7 @@ pub fn prop() -> Prop {
                Non-trivial: some bound is negative, absent, out of range or extreme, or the step is not 1. Distinct by (query text, document).",
         assumptions: vec![
             "slice_indices() in harness/src/oracle.rs transcribes Normalize/Bounds of RFC 9535 2.3.4.2.2 (self-tested on the RFC slice examples)",
-            "termination is observed through a 20 s per-call watchdog; evaluations of this size take microseconds",
+            "termination is observed through a 40 s per-call watchdog; evaluations of this size take microseconds",
         ],
         subs: vec![
             Sub { name: "box-small", kind: Kind::Exhaustive(box_small) },
